@@ -15,6 +15,11 @@ import (
 // into the wire credential it reads. Totality: the body must be exactly the
 // recognised statement sequence.
 func authCredential(p *Program, fd *ast.FuncDecl) (cred string, why string) {
+	// Value-flow form (tolerant to temporaries and their names): the body consists of
+	//   - bindings of local variables (var decl, :=, =) without calls other than the credential
+	//     source r.Header.Values(<const>) / r.URL.Query()[<const>] and strings.TrimPrefix(x, "Bearer ")
+	//   - one guard `if len(V) == 0 { return nil, false }` on the source values V
+	//   - the final `return s(r, T)` where T flows from V[0] through bindings / the TrimPrefix only
 	info := p.Pkg.TypesInfo
 	c := &rmCtx{p: p, info: info, recv: recvObj(info, fd)}
 	ps := paramObjs(info, fd)
@@ -23,115 +28,177 @@ func authCredential(p *Program, fd *ast.FuncDecl) (cred string, why string) {
 	}
 	req := ps[0]
 	list := fd.Body.List
-	if len(list) < 5 || len(list) > 6 {
-		return "", fmt.Sprintf("%d statements, recognised shapes have 5 or 6", len(list))
+	if len(list) < 3 {
+		return "", fmt.Sprintf("%d statements: no room for source, guard and call", len(list))
 	}
-	// var token string
-	ds, ok := list[0].(*ast.DeclStmt)
-	if !ok {
-		return "", "first statement is not `var token string`"
-	}
-	gd := ds.Decl.(*ast.GenDecl)
-	if gd.Tok != token.VAR || len(gd.Specs) != 1 {
-		return "", "first statement is not `var token string`"
-	}
-	vs := gd.Specs[0].(*ast.ValueSpec)
-	if len(vs.Names) != 1 || len(vs.Values) != 0 {
-		return "", "first statement is not `var token string`"
-	}
-	tok := info.Defs[vs.Names[0]]
-	// hs := r.Header.Values("K") | vs := r.URL.Query()["K"]
-	as, ok := list[1].(*ast.AssignStmt)
-	if !ok || as.Tok != token.DEFINE || len(as.Lhs) != 1 || len(as.Rhs) != 1 {
-		return "", "second statement does not bind the credential values"
-	}
-	vals := info.Defs[as.Lhs[0].(*ast.Ident)]
+	defs := map[types.Object][]ast.Expr{} // local -> assigned expressions, in order
+	var vals types.Object
 	kind, name := "", ""
-	switch e := as.Rhs[0].(type) {
-	case *ast.CallExpr:
-		if calleeName(info, e) == "net/http.Header.Values" && len(e.Args) == 1 {
-			if sel, ok := e.Fun.(*ast.SelectorExpr); ok {
-				if s2, ok := sel.X.(*ast.SelectorExpr); ok && s2.Sel.Name == "Header" && c.isObj(s2.X, req) {
-					if k, ok := c.constStr(e.Args[0]); ok {
-						kind, name = "header", k
+	guardAt, srcAt := -1, -1
+	source := func(e ast.Expr) (string, string) {
+		switch e := ast.Unparen(e).(type) {
+		case *ast.CallExpr:
+			if calleeName(info, e) == "net/http.Header.Values" && len(e.Args) == 1 {
+				if sel, ok := e.Fun.(*ast.SelectorExpr); ok {
+					if s2, ok := sel.X.(*ast.SelectorExpr); ok && s2.Sel.Name == "Header" && c.isObj(s2.X, req) {
+						if k, ok := c.constStr(e.Args[0]); ok {
+							return "header", k
+						}
+					}
+				}
+			}
+		case *ast.IndexExpr:
+			if call, ok := e.X.(*ast.CallExpr); ok && calleeName(info, call) == "net/url.URL.Query" {
+				if sel, ok := call.Fun.(*ast.SelectorExpr); ok {
+					if s2, ok := sel.X.(*ast.SelectorExpr); ok && s2.Sel.Name == "URL" && c.isObj(s2.X, req) {
+						if k, ok := c.constStr(e.Index); ok {
+							return "query", k
+						}
 					}
 				}
 			}
 		}
-	case *ast.IndexExpr:
-		if call, ok := e.X.(*ast.CallExpr); ok && calleeName(info, call) == "net/url.URL.Query" {
-			if sel, ok := call.Fun.(*ast.SelectorExpr); ok {
-				if s2, ok := sel.X.(*ast.SelectorExpr); ok && s2.Sel.Name == "URL" && c.isObj(s2.X, req) {
-					if k, ok := c.constStr(e.Index); ok {
-						kind, name = "query", k
+		return "", ""
+	}
+	for i, st := range list[:len(list)-1] {
+		switch x := st.(type) {
+		case *ast.DeclStmt:
+			gd, ok := x.Decl.(*ast.GenDecl)
+			if !ok || gd.Tok != token.VAR {
+				return "", "unexpected declaration"
+			}
+			for _, sp := range gd.Specs {
+				vs := sp.(*ast.ValueSpec)
+				if len(vs.Values) != 0 && len(vs.Values) != len(vs.Names) {
+					return "", "unexpected declaration"
+				}
+				for k, n := range vs.Names {
+					if len(vs.Values) > 0 {
+						defs[info.Defs[n]] = append(defs[info.Defs[n]], vs.Values[k])
 					}
 				}
 			}
+		case *ast.AssignStmt:
+			if len(x.Lhs) != 1 || len(x.Rhs) != 1 || (x.Tok != token.DEFINE && x.Tok != token.ASSIGN) {
+				return "", "unexpected assignment form"
+			}
+			lo := identObj(info, x.Lhs[0])
+			if lo == nil {
+				return "", "assignment to something that is not a local variable"
+			}
+			if k, n := source(x.Rhs[0]); k != "" {
+				if vals != nil {
+					return "", "two credential sources"
+				}
+				vals, kind, name, srcAt = lo, k, n, i
+				continue
+			}
+			defs[lo] = append(defs[lo], x.Rhs[0])
+		case *ast.IfStmt:
+			// if len(V) == 0 { return nil, false }
+			if guardAt >= 0 || x.Else != nil || x.Init != nil || len(x.Body.List) != 1 || vals == nil {
+				return "", "unexpected if statement (one absent-credential guard after the source is expected)"
+			}
+			be, ok := ast.Unparen(x.Cond).(*ast.BinaryExpr)
+			okLen := false
+			if ok && be.Op == token.EQL {
+				if call, ok := be.X.(*ast.CallExpr); ok && len(call.Args) == 1 && c.isObj(call.Args[0], vals) {
+					if id, ok := call.Fun.(*ast.Ident); ok && id.Name == "len" {
+						if k, ok := c.constInt(be.Y); ok && k == 0 {
+							okLen = true
+						}
+					}
+				}
+			}
+			ret, ok := x.Body.List[0].(*ast.ReturnStmt)
+			if !okLen || !ok || len(ret.Results) != 2 || !isNilIdent(ret.Results[0]) {
+				return "", "absent credential does not `return nil, false`"
+			}
+			if tv := info.Types[ret.Results[1]]; tv.Value == nil || tv.Value.String() != "false" {
+				return "", "absent credential does not `return nil, false`"
+			}
+			guardAt = i
+		default:
+			return "", fmt.Sprintf("unexpected statement %T", st)
 		}
 	}
 	if kind == "" {
 		return "", "credential source is neither r.Header.Values(<const>) nor r.URL.Query()[<const>]"
 	}
-	// if len(hs) == 0 { return nil, false }
-	ifs, ok := list[2].(*ast.IfStmt)
-	if !ok || ifs.Else != nil || ifs.Init != nil || len(ifs.Body.List) != 1 {
-		return "", "third statement is not the absent-credential guard"
+	if guardAt < srcAt {
+		return "", "the absent-credential guard `if len(values) == 0 { return nil, false }` is missing"
 	}
-	be, ok := ifs.Cond.(*ast.BinaryExpr)
-	okLen := false
-	if ok && be.Op == token.EQL {
-		if call, ok := be.X.(*ast.CallExpr); ok && len(call.Args) == 1 && c.isObj(call.Args[0], vals) {
-			if id, ok := call.Fun.(*ast.Ident); ok && id.Name == "len" {
-				if k, ok := c.constInt(be.Y); ok && k == 0 {
-					okLen = true
-				}
-			}
-		}
-	}
-	ret, ok := ifs.Body.List[0].(*ast.ReturnStmt)
-	if !okLen || !ok || len(ret.Results) != 2 || !isNilIdent(ret.Results[0]) {
-		return "", "absent credential does not `return nil, false`"
-	}
-	if tv := info.Types[ret.Results[1]]; tv.Value == nil || tv.Value.String() != "false" {
-		return "", "absent credential does not `return nil, false`"
-	}
-	// token = hs[0]
-	as2, ok := list[3].(*ast.AssignStmt)
-	if !ok || as2.Tok != token.ASSIGN || len(as2.Lhs) != 1 || !c.isObj(as2.Lhs[0], tok) {
-		return "", "fourth statement is not `token = values[0]`"
-	}
-	ix, ok := as2.Rhs[0].(*ast.IndexExpr)
-	if !ok || !c.isObj(ix.X, vals) {
-		return "", "fourth statement is not `token = values[0]`"
-	}
-	if k, ok := c.constInt(ix.Index); !ok || k != 0 {
-		return "", "fourth statement is not `token = values[0]`"
-	}
-	bearer := false
-	i := 4
-	if len(list) == 6 {
-		as3, ok := list[4].(*ast.AssignStmt)
-		if !ok || as3.Tok != token.ASSIGN || len(as3.Lhs) != 1 || !c.isObj(as3.Lhs[0], tok) {
-			return "", "unexpected fifth statement"
-		}
-		call, ok := c.stdCall(as3.Rhs[0], "strings.TrimPrefix")
-		if !ok || len(call.Args) != 2 || !c.isObj(call.Args[0], tok) {
-			return "", "unexpected fifth statement"
-		}
-		if pre, ok := c.constStr(call.Args[1]); !ok || pre != "Bearer " {
-			return "", "bearer prefix is not \"Bearer \""
-		}
-		bearer = true
-		i = 5
-	}
-	// return s(r, token)
-	ret2, ok := list[i].(*ast.ReturnStmt)
+	ret2, ok := list[len(list)-1].(*ast.ReturnStmt)
 	if !ok || len(ret2.Results) != 1 {
 		return "", "last statement is not `return s(r, token)`"
 	}
 	call, ok := ret2.Results[0].(*ast.CallExpr)
-	if !ok || len(call.Args) != 2 || !c.isObj(call.Fun, c.recv) || !c.isObj(call.Args[0], req) || !c.isObj(call.Args[1], tok) {
+	if !ok || len(call.Args) != 2 || !c.isObj(call.Fun, c.recv) || !c.isObj(call.Args[0], req) {
 		return "", "the user hook is not called as s(r, token) with its result returned unchanged"
+	}
+	// the token expression: V[0], possibly through local bindings and one TrimPrefix(_, "Bearer ")
+	bearer := false
+	var flows func(e ast.Expr, depth int) string
+	flows = func(e ast.Expr, depth int) string {
+		if depth > 8 {
+			return "token derivation too deep"
+		}
+		switch x := ast.Unparen(e).(type) {
+		case *ast.IndexExpr:
+			if c.isObj(x.X, vals) {
+				if k, ok := c.constInt(x.Index); ok && k == 0 {
+					return ""
+				}
+			}
+			return "token is not values[0]"
+		case *ast.Ident:
+			o := identObj(info, x)
+			ds := defs[o]
+			if len(ds) == 0 {
+				return "token variable " + x.Name + " is never bound"
+			}
+			// every binding must itself flow from the source (the last one is what is passed; the
+			// earlier ones may be its inputs: token = hs[0]; token = TrimPrefix(token, …))
+			for _, d := range ds {
+				self := false
+				ast.Inspect(d, func(n ast.Node) bool {
+					if id, ok := n.(*ast.Ident); ok && identObj(info, id) == o {
+						self = true
+					}
+					return true
+				})
+				if self {
+					// x = f(x): judge f's other structure, the inner x by the remaining bindings
+					call, ok := c.stdCall(d, "strings.TrimPrefix")
+					if !ok || len(call.Args) != 2 || identObj(info, call.Args[0]) != o {
+						return "token is rebound from itself by something other than strings.TrimPrefix"
+					}
+					if pre, ok := c.constStr(call.Args[1]); !ok || pre != "Bearer " {
+						return "bearer prefix is not \"Bearer \""
+					}
+					bearer = true
+					continue
+				}
+				if why := flows(d, depth+1); why != "" {
+					return why
+				}
+			}
+			return ""
+		case *ast.CallExpr:
+			call, ok := c.stdCall(x, "strings.TrimPrefix")
+			if !ok || len(call.Args) != 2 {
+				return "unexpected call on the token path"
+			}
+			if pre, ok := c.constStr(call.Args[1]); !ok || pre != "Bearer " {
+				return "bearer prefix is not \"Bearer \""
+			}
+			bearer = true
+			return flows(call.Args[0], depth+1)
+		}
+		return "token is not derived from values[0]"
+	}
+	if why := flows(call.Args[1], 0); why != "" {
+		return "", why
 	}
 	switch {
 	case bearer && kind == "header" && name == "Authorization":
